@@ -37,6 +37,8 @@ def cases(tier, seed):
     out = _embedded.assembly_cases(seed, per * len(gen.enzyme_names()), features=True, max_chain=4)
     # long module lists (the "Modules:" comment line of 7..10 supplied plasmids)
     out += _embedded.assembly_cases(seed + 7919, 40 if tier == "quick" else 2000, enzymes=["BsaI", "BsmBI", "BbsI", "FokI"], features=False, max_chain=10, tmax=12, bmax=10, pmax=8)
+    # multigene-sized lists (up to 24 supplied plasmids in one reaction)
+    out += _embedded.assembly_cases(seed + 104729, 24 if tier == "quick" else 600, enzymes=["BsaI", "BsmBI", "BbsI"], features=False, max_chain=24, tmax=8, bmax=6, pmax=6)
     out += _embedded.registry_assembly_cases(seed, per_vector=1 if tier == "quick" else 30)
     out += [{"kind": "two-level", "i": i, "seed": seed} for i in range(60 if tier == "quick" else 10000)]
     return out
